@@ -82,6 +82,12 @@ theories/Outline.vos theories/Outline.vok theories/Outline.required_vos: theorie
 theories/OutlineProofs.vo theories/OutlineProofs.glob theories/OutlineProofs.v.beautified theories/OutlineProofs.required_vo: theories/OutlineProofs.v theories/Base.vo theories/UStr.vo theories/Outline.vo gen/UnicodeTables.vo gen/OutlineTables.vo
 theories/OutlineProofs.vio: theories/OutlineProofs.v theories/Base.vio theories/UStr.vio theories/Outline.vio gen/UnicodeTables.vio gen/OutlineTables.vio
 theories/OutlineProofs.vos theories/OutlineProofs.vok theories/OutlineProofs.required_vos: theories/OutlineProofs.v theories/Base.vos theories/UStr.vos theories/Outline.vos gen/UnicodeTables.vos gen/OutlineTables.vos
+theories/Regex.vo theories/Regex.glob theories/Regex.v.beautified theories/Regex.required_vo: theories/Regex.v theories/Base.vo theories/UStr.vo theories/StepMatch.vo
+theories/Regex.vio: theories/Regex.v theories/Base.vio theories/UStr.vio theories/StepMatch.vio
+theories/Regex.vos theories/Regex.vok theories/Regex.required_vos: theories/Regex.v theories/Base.vos theories/UStr.vos theories/StepMatch.vos
+theories/RegexProofs.vo theories/RegexProofs.glob theories/RegexProofs.v.beautified theories/RegexProofs.required_vo: theories/RegexProofs.v theories/Base.vo theories/UStr.vo theories/StepMatch.vo theories/Regex.vo
+theories/RegexProofs.vio: theories/RegexProofs.v theories/Base.vio theories/UStr.vio theories/StepMatch.vio theories/Regex.vio
+theories/RegexProofs.vos theories/RegexProofs.vok theories/RegexProofs.required_vos: theories/RegexProofs.v theories/Base.vos theories/UStr.vos theories/StepMatch.vos theories/Regex.vos
 theories/Rerun.vo theories/Rerun.glob theories/Rerun.v.beautified theories/Rerun.required_vo: theories/Rerun.v theories/Base.vo theories/Status.vo theories/Rollup.vo theories/Runner.vo theories/Summary.vo theories/Select.vo theories/SelectProofs.vo gen/StatusTable.vo
 theories/Rerun.vio: theories/Rerun.v theories/Base.vio theories/Status.vio theories/Rollup.vio theories/Runner.vio theories/Summary.vio theories/Select.vio theories/SelectProofs.vio gen/StatusTable.vio
 theories/Rerun.vos theories/Rerun.vok theories/Rerun.required_vos: theories/Rerun.v theories/Base.vos theories/Status.vos theories/Rollup.vos theories/Runner.vos theories/Summary.vos theories/Select.vos theories/SelectProofs.vos gen/StatusTable.vos
@@ -184,9 +190,9 @@ props/C09.vos props/C09.vok props/C09.required_vos: props/C09.v theories/Base.vo
 props/C10.vo props/C10.glob props/C10.v.beautified props/C10.required_vo: props/C10.v theories/Base.vo theories/Select.vo theories/SelectProofs.vo
 props/C10.vio: props/C10.v theories/Base.vio theories/Select.vio theories/SelectProofs.vio
 props/C10.vos props/C10.vok props/C10.required_vos: props/C10.v theories/Base.vos theories/Select.vos theories/SelectProofs.vos
-props/C11.vo props/C11.glob props/C11.v.beautified props/C11.required_vo: props/C11.v theories/Base.vo theories/UStr.vo theories/StepMatch.vo theories/StepMatchProofs.vo
-props/C11.vio: props/C11.v theories/Base.vio theories/UStr.vio theories/StepMatch.vio theories/StepMatchProofs.vio
-props/C11.vos props/C11.vok props/C11.required_vos: props/C11.v theories/Base.vos theories/UStr.vos theories/StepMatch.vos theories/StepMatchProofs.vos
+props/C11.vo props/C11.glob props/C11.v.beautified props/C11.required_vo: props/C11.v theories/Base.vo theories/UStr.vo theories/StepMatch.vo theories/StepMatchProofs.vo theories/Regex.vo theories/RegexProofs.vo
+props/C11.vio: props/C11.v theories/Base.vio theories/UStr.vio theories/StepMatch.vio theories/StepMatchProofs.vio theories/Regex.vio theories/RegexProofs.vio
+props/C11.vos props/C11.vok props/C11.required_vos: props/C11.v theories/Base.vos theories/UStr.vos theories/StepMatch.vos theories/StepMatchProofs.vos theories/Regex.vos theories/RegexProofs.vos
 props/C12.vo props/C12.glob props/C12.v.beautified props/C12.required_vo: props/C12.v theories/Base.vo theories/Status.vo theories/Rollup.vo theories/Runner.vo theories/RunnerVerdict.vo theories/RunnerSteps.vo theories/RunnerQuiet.vo theories/RunnerSelect.vo theories/RunnerHooks.vo theories/RunnerEq.vo gen/StatusTable.vo
 props/C12.vio: props/C12.v theories/Base.vio theories/Status.vio theories/Rollup.vio theories/Runner.vio theories/RunnerVerdict.vio theories/RunnerSteps.vio theories/RunnerQuiet.vio theories/RunnerSelect.vio theories/RunnerHooks.vio theories/RunnerEq.vio gen/StatusTable.vio
 props/C12.vos props/C12.vok props/C12.required_vos: props/C12.v theories/Base.vos theories/Status.vos theories/Rollup.vos theories/Runner.vos theories/RunnerVerdict.vos theories/RunnerSteps.vos theories/RunnerQuiet.vos theories/RunnerSelect.vos theories/RunnerHooks.vos theories/RunnerEq.vos gen/StatusTable.vos
